@@ -654,6 +654,10 @@ def run_real(case):
         obs.append(o)
         if o['bad']:
             break
+    # the images of the whole history at once (`images` of the observation list; noisy kinds also `reads … (strip history)`)
+    model.append('C17 imgs')
+    if kind == 'noisy':
+        model.append('C17 twin')
     return obs, model
 
 
@@ -1079,7 +1083,42 @@ def check_case(ctx, case, lines, index):
              nontrivial_key=sig if nread >= 1 else None)
     base = len(lines)
     lines += model
-    index.append((case, obs, base))
+    index.append((case, obs, base, len(model)))
+
+
+def parse_lists(resp):
+    if not resp.startswith('ok '):
+        return None
+    body = resp[3:]
+    return [] if body == '-' else [parse_rat_list(c) for c in body.split(';')]
+
+
+def close_lists(m, got):
+    return len(m) == len(got) and all(abs(float(a) - b) <= TOL * max([1.0] + [abs(float(x)) for x in m]) for a, b in zip(m, got))
+
+
+def compare_history(ctx, out, case, obs, base, nlines):
+    """ops `imgs` / `twin`, the last lines of the case"""
+    if any(o['bad'] for o in obs):
+        return
+    reads = [o for o in obs if 'got' in o]
+    noisy = case['kind'] != 'noiseless'
+    resp = out[base + nlines - (2 if noisy else 1)]
+    m = parse_lists(resp)
+    want = [o['got'] for o in reads if not o.get('random')]
+    ctx.traces_validated += 1
+    if m is None or len(m) != len(want) or not all(close_lists(a, b) for a, b in zip(m, want)):
+        ctx.disagree('C17 imgs', {'case': case, 'model': resp, 'impl': want})
+        return
+    if noisy:
+        resp = out[base + nlines - 1]
+        m = parse_lists(resp)
+        ctx.traces_validated += 1
+        # the model's noiseless detector on the history without the setters, against the real NoisyDetector wherever every
+        # noise source was off for the whole exposure
+        if m is None or len(m) != len(reads) or not all(close_lists(a, o['got']) for a, o in zip(m, reads) if o.get('off') and not o.get('random')):
+            ctx.disagree('C17 twin', {'case': case, 'model': resp, 'impl': [o['got'] for o in reads]})
+        ctx.count('twin-readouts-compared', sum(1 for o in reads if o.get('off') and not o.get('random')))
 
 
 def compare_model(ctx, out, case, obs, base):
@@ -1230,8 +1269,9 @@ def run(ctx):
             if not good:
                 ctx.disagree('C17 readrng', {'case': case, 'model': out[base + idx], 'impl': img, 'lam': lam})
                 break
-    for case, obs, base in index:
+    for case, obs, base, nlines in index:
         compare_model(ctx, out, case, obs, base)
+        compare_history(ctx, out, case, obs, base, nlines)
     for case, base, cmps in pa:
         # the images of single integrations (dt = weight = 1) against the per-axis binning model `binNDs` (C18 op `bins`)
         for k, got in enumerate(cmps):
